@@ -245,7 +245,7 @@ PROPS = {
         trusted_base=['the bookkeeping list TexArgs.all is not modelled (opaque; its lookups are assumed to find their '
                       'argument): exceptions raised through it are covered by the bounded exploration only',
                       'list.__init__/insert/remove/pop/reverse/clear/__getitem__ of the base class follow the language reference'],
-        assumptions=['TexArgs.__contains__ and construction from another TexArgs are not verified (bounded only)',
+        assumptions=['TexArgs.__contains__ is not verified (bounded only); construction from another TexArgs reads it as its item list',
                      'coercion: a string is accepted iff it is blank or delimited like a group; TexGroup.parse is executed in place'],
         explanation='append, extend, insert (any index), remove, pop, reverse, clear, indexing, slicing, __str__ and the '
                     'constructor are verified against list semantics on the view; a rejected string leaves the list unchanged; '
